@@ -86,6 +86,33 @@ Fixpoint evars (e : expr) : vars :=
       flat_map (fun g => match g with (p, it) => pvars p ++ evars it end) gens ++ evars elt
   end.
 
+(* free variables (comprehension targets scoped) *)
+Fixpoint efv (bvs : vars) (e : expr) {struct e} : vars :=
+  match e with
+  | EVar x => if vmem x bvs then [] else [x]
+  | ENum _ | ERat _ _ | EBool _ | ECtxVal _ | EOp0 _ => []
+  | EOp1 _ a | EPred _ a | ENot a | EFst a | ESnd a | ELen a | ERange1 a | EEnumerate a
+  | EDim a | ESum a | EAMin a | EAMax a | EAny a | EAll a => efv bvs a
+  | EOp2 _ a b | ERef a b | ERange2 a b | ESize a b => efv bvs a ++ efv bvs b
+  | EOp3 _ a b c | EIf a b c | ERange3 a b c => efv bvs a ++ efv bvs b ++ efv bvs c
+  | ECompare _ es | EAnd es | EOr es | ETuple es | EList es | EZip es | EEmpty es
+  | EMin es | EMax es | ECall _ es | ECtor _ es => flat_map (efv bvs) es
+  | ESlice a lo hi => efv bvs a ++ oexpr_map (efv bvs) lo ++ oexpr_map (efv bvs) hi
+  | EComp gens elt =>
+      (fix go (bvs : vars) (l : list (pat * expr)) : vars :=
+         match l with
+         | [] => efv bvs elt
+         | (p, it) :: l' => efv bvs it ++ go (pvars p ++ bvs) l'
+         end) bvs gens
+  end.
+
+Definition efv_gens (elt : expr) : vars -> list (pat * expr) -> vars :=
+  fix go (bvs : vars) (l : list (pat * expr)) : vars :=
+    match l with
+    | [] => efv bvs elt
+    | (p, it) :: l' => efv bvs it ++ go (pvars p ++ bvs) l'
+    end.
+
 (* ---------------------------------------------------------------- node predicates *)
 Section ExprAll.
 Variable q : expr -> bool.
